@@ -38,7 +38,7 @@ T2 = 1_700_000_000
 # (name, v1 files, v2 files (only the edited ones), command-line targets, SCCs of user modules)
 HISTORIES: list[dict[str, Any]] = [
     {"name": "one-error-changes", "v1": {"m.py": 'x: int = "a"\n'}, "v2": {"m.py": "y: str = 1\n"},
-     "targets": ["m.py"], "sccs": [["m"]]},
+     "targets": ["m.py"], "sccs": [["m"]], "subsets": True},
     {"name": "one-error-appears", "v1": {"m.py": "x: int = 1\n"}, "v2": {"m.py": 'x: int = "a"\n'},
      "targets": ["m.py"], "sccs": [["m"]]},
     {"name": "dep-interface-changes",
@@ -82,7 +82,18 @@ HISTORIES.append(
      "v1": {"d.py": "def f() -> int:\n    return 1\n", "m.py": "from d import f\nx: int = f()\n"},
      "v2": {"d.py": "def f() -> int:\n    return 1\n", "m.py": "from d import f\nx: str = f()\n"},
      "targets": ["m.py", "d.py"], "sccs": [["d"], ["m"]], "quick_configs": [("sqlite", "seq"), ("fs", "par")]})
-QUICK_HISTORIES = ["touch-and-edit", "revert-after-crash", "one-error-changes", "dep-interface-changes"]
+_PLUG = "from mypy.plugin import Plugin\nRET = \"builtins.%s\"\nclass P(Plugin):\n    def get_function_hook(self, fullname):\n        if fullname == \"m.f\":\n            return hook\n        return None\ndef hook(ctx):\n    return ctx.api.named_generic_type(RET, [])\ndef plugin(version):\n    return P\n"
+HISTORIES.append(
+    {"name": "plugin-edit",   # a LOCAL PLUGIN is edited (not a module): @plugins_snapshot.json is what vouches for the entries
+     "v1": {"mypy.ini": "[mypy]\nplugins = plug.py\n", "plug.py": _PLUG % "int", "m.py": "def f() -> object: ...\nx: int = f()\n"},
+     "v2": {"plug.py": _PLUG % "str"},
+     "targets": ["m.py"], "sccs": [["m"]], "plugin": True, "quick_configs": [("fs", "seq"), ("sqlite", "par")]})
+HISTORIES.append(
+    {"name": "plugin-edit-revert",   # ... and reverted after the faulty run (thorough only: exposes F2d)
+     "v1": {"mypy.ini": "[mypy]\nplugins = plug.py\n", "plug.py": _PLUG % "int", "m.py": "def f() -> object: ...\nx: int = f()\n"},
+     "v2": {"plug.py": _PLUG % "str"}, "post": [{"plug.py": _PLUG % "int"}], "skip_warm": True,
+     "targets": ["m.py"], "sccs": [["m"]], "plugin": True})
+QUICK_HISTORIES = ["plugin-edit", "touch-and-edit", "revert-after-crash", "one-error-changes", "dep-interface-changes"]
 
 CONFIGS = [("fs", "seq"), ("fs", "par"), ("sqlite", "seq"), ("sqlite", "par")]
 
@@ -187,6 +198,8 @@ NAME_RE = re.compile(r"^(?P<mod>.+?)\.(?P<rec>data|meta|meta_ex)\.(ff|json)$")
 
 def op_ok(e: dict[str, Any]) -> bool:
     """Did the completed operation take effect (a remove of a missing entry counts: the entry is absent)."""
+    if "effect" in e:
+        return bool(e["effect"])
     return bool(e.get("ok", True)) or e.get("raised") == "FileNotFoundError"
 
 
@@ -317,8 +330,23 @@ class Setup:
         common = {"history": self.hist["name"], "store": self.store, "mode": self.mode}
         k = seed
         seen: set[tuple] = set()
+        user = {m for scc in self.hist["sccs"] for m in scc}
+
+        def of_interest(e: dict[str, Any]) -> bool:
+            """Plugin histories re-check the whole standard library: only positions at the user modules, the
+            build-level records (@plugins_snapshot.json, ...) and the commits right after them are enumerated."""
+            if not self.hist.get("plugin"):
+                return True
+            nm = e["name"] if e["name"] else e.get("anchor", "").split(":", 2)[1] if e.get("anchor") else ""
+            if nm.startswith("@"):
+                return True
+            mm = NAME_RE.match(nm)
+            return bool(mm and mm.group("mod") in user)
+
         for (role, w), ops in sorted(procs.items()):
             for i, e in enumerate(ops):
+                if not of_interest(e):
+                    continue
                 whens = ["before"] + (["after"] if i == len(ops) - 1 else [])
                 for when in whens:
                     ident = (role, e["kind"], e["name"], e.get("anchor", ""), e["occ"], when)
@@ -333,10 +361,18 @@ class Setup:
                         out.append(dict(common, fault="crash", pos=[role, i if when == "before" else i + 1, len(ops)],
                                         crash={"role": role, "kind": e["kind"], "name": e["name"], "occ": e["occ"],
                                                "anchor": e.get("anchor", ""), "when": when, "scope": scope}))
-        writes = [[e["role"], e["kind"], e["name"], e["occ"]] for e in self.ref_ops if e["kind"] in ("write", "remove")]
+        writes = [[e["role"], e["kind"], e["name"], e["occ"]] for e in self.ref_ops
+                  if e["kind"] in ("write", "remove") and of_interest(e)]
         for wv in writes:
             out.append(dict(common, fault="fail", fail=[wv]))
-        if pairs:
+        if self.hist.get("subsets"):
+            # the store operations on ONE module: quick = every pair, thorough = every subset (2^n - 1)
+            mod_ops = [wv for wv in writes if NAME_RE.match(wv[2])]
+            top = len(mod_ops) if pairs else 2
+            for kk in range(2, top + 1):
+                for sub in itertools.combinations(mod_ops, kk):
+                    out.append(dict(common, fault="fail", fail=list(sub)))
+        elif pairs:
             allp = list(itertools.combinations(writes, 2))
             same = [(a, b) for a, b in allp if NAME_RE.match(a[2]) and NAME_RE.match(b[2])
                     and NAME_RE.match(a[2]).group("mod") == NAME_RE.match(b[2]).group("mod")]
@@ -572,7 +608,7 @@ def outcome_correspondence(ctx: vlib.Ctx, setups: list[Setup]) -> None:
     r1 = ("{| rd := Some {| d_if := 1; d_stamp := 1 |}; rm := Some {| m_of := 1; m_if := 1; m_stamp := 1 |}; "
           "rx := Some {| x_of := 1 |} |}")
     for s in setups:
-        if s.problems or s.hist.get("skip_warm"):
+        if s.problems or s.hist.get("skip_warm") or s.hist.get("plugin"):
             continue
         names = sorted({m for scc in s.hist["sccs"] for m in scc})
         ref_processed = processed_modules(s.ref_ops)
@@ -658,7 +694,7 @@ def trace_correspondence(ctx: vlib.Ctx, setups: list[Setup]) -> None:
     exprs: list[str] = []
     meta: list[tuple[Setup, tuple[str, int], list[str], list[str]]] = []
     for s in setups:
-        if s.problems or not s.ref_ops:
+        if s.problems or not s.ref_ops or s.hist.get("plugin"):
             continue
         inf = infer_shape(s)
         if inf is None:
@@ -772,7 +808,18 @@ def judge(ctx: vlib.Ctx, results: list[tuple[Setup, dict[str, Any]]]) -> None:
         if not bad:
             continue
         win = f2_window(case, r["trace"])
-        if bad[0] >= 1 and meta_fail_window(case, r["trace"]):
+        if s.hist.get("plugin"):
+            if s.hist.get("post"):
+                key = f"F2d:{case['store']}-{case['mode']}:plugins-snapshot-not-invalidated-then-plugin-reverted"
+            elif case["fault"] == "fail":
+                # F2e: the cache write of a module was skipped (its first remove failed) but the run went on and wrote
+                # the new plugins snapshot, which now vouches for the module's old entry
+                key = f"F2e:{case['store']}-{case['mode']}:cache-write-skipped-but-new-plugins-snapshot-written"
+            else:
+                key = f"C04:{case['store']}-{case['mode']}:plugin-edit:killed-while-snapshot-vouches-for-entries-of-the-old-plugin"
+            r = dict(r, warm=r["later"][bad[0]])
+            s = _with_cold(s, s.colds[bad[0]])
+        elif bad[0] >= 1 and meta_fail_window(case, r["trace"]):
             key = f"F2c:{case['store']}-{case['mode']}:meta-write-fails-meta_ex-written-then-revert"
             r = dict(r, warm=r["later"][bad[0]])
             s = _with_cold(s, s.colds[bad[0]])
@@ -877,6 +924,7 @@ def run(ctx: vlib.Ctx) -> None:
     # ---- P + A
     proved = False
     safe = None
+    snap_safe = None
     if proto is not None:
         proved = ctx.prove("C04/Properties.v", ["C04", "gen", "lib"])
         v = ctx.eval_cases("verdict", MODEL_HEADER, ["protocol_ok current_protocol"])
@@ -885,6 +933,16 @@ def run(ctx: vlib.Ctx) -> None:
             ctx.cov["current_protocol_passes_side_condition"] = safe
             ctx.log("P: the generated op order", "PASSES the side condition: crash_safe / write_is_optional apply to it" if safe
                     else "FAILS the side condition: current_protocol_decided proves it REFUTES crash_safe (finding F2)")
+        ctx.prove("C04/PropertiesSnapshot.v", ["C04", "gen", "lib"])
+        v2 = ctx.eval_cases("snapverdict", MODEL_HEADER + "From C04 Require Import Snapshot.\n", ["snapshot_ok current_snapshot_order"])
+        if v2 is not None:
+            snap_safe = v2[0] == "true"
+            ctx.cov["current_snapshot_order_passes_side_condition"] = snap_safe
+            ctx.log("P: build.dispatch order for @plugins_snapshot.json", proto["snapshot_order"],
+                    "PASSES the side condition" if snap_safe else
+                    "FAILS the side condition: current_snapshot_order_decided proves it refuted"
+                    + (" (F2d: needs plugin edit + kill + plugin revert; enumerated in the thorough tier)"
+                       if proto["snapshot_order"] == ["SnGraph", "SnWrite"] else ""))
     # ---- C + S
     names = QUICK_HISTORIES if ctx.quick else [h["name"] for h in HISTORIES]
     setups = search(ctx, names, CONFIGS, pairs=not ctx.quick, both_scopes=not ctx.quick)
@@ -896,7 +954,12 @@ def run(ctx: vlib.Ctx) -> None:
         ctx.broke("P", "crash_safe for the generated op order",
                   "the generated op order fails the side condition and is refuted in the model, but the fault enumeration "
                   "did not reproduce a witness on the implementation")
-    if safe and ctx.violations:
+    if (proved and snap_safe is False and proto is not None and proto["snapshot_order"] != ["SnGraph", "SnWrite"]
+            and not any("plugin" in v.key for v in ctx.violations)):
+        ctx.broke("P", "snapshot_safe for the generated dispatch order",
+                  f"the order {proto['snapshot_order']} is refuted in the model but the fault enumeration (history plugin-edit) "
+                  "did not reproduce a witness on the implementation")
+    if safe and snap_safe is not False and ctx.violations:
         ctx.broke("C", "model vs implementation", "the generated op order is proved safe but the implementation violates the property")
 
 
